@@ -68,7 +68,7 @@ Proof.
 Qed.
 
 Theorem cprog_refused : forall c, refuses c = true ->
-  nth_error (cprog c) 4 = Some (CBind true (bind_name c)) /\
+  nth_error (cprog c) 5 = Some (CBind true (bind_name c)) /\
   forall s p pr nm, cexec s p pr (CBind true nm) = CFail s.
 Proof. intros c H. unfold cprog, cstartup. rewrite H. split; reflexivity. Qed.
 
@@ -132,6 +132,8 @@ Lemma exec_sim : forall c cs s p pr a, inj c -> R c cs s ->
 Proof.
   intros c cs s p pr a Hinj HR. pose proof HR as HR0. destruct HR as [Hn Hi Hl Hli Hc Hnx Hp Hcf].
   destruct a; cbn [cexec exec concretize Rout].
+  - (* ReadSeed *) rewrite Hn. destruct (names s NSeed) as [f|]; cbn; auto. rewrite Hc.
+    destruct (content s f); cbn; auto.
   - (* OpenLock *) rewrite Hn. destruct (names s NLock); destruct lock_open_excl, lock_open_creat; cbn; auto.
     all: rewrite ?Hnx; split; auto; solveR Hinj Hn Hi Hl Hli Hc Hnx Hp Hcf.
   - (* FstatLock *) destruct (lockfd pr); cbn; auto. rewrite Hi. destruct (stat_ok _); cbn; auto.
@@ -142,11 +144,15 @@ Proof.
   - (* Bind *) rewrite Hn. destruct (names s NSock); cbn; auto. rewrite Hnx. split; auto.
     solveR Hinj Hn Hi Hl Hli Hc Hnx Hp Hcf.
   - (* Listen *) destruct (sockfd pr); cbn; auto. split; auto. solveR Hinj Hn Hi Hl Hli Hc Hnx Hp Hcf.
-  - (* WritePid *) rewrite Hn. destruct (names s NPid); cbn; (split; [|reflexivity]); rewrite ?Hnx;
+  - (* OpenPid *) rewrite Hn. destruct (names s NPid); cbn; (split; [|reflexivity]); rewrite ?Hnx;
       solveR Hinj Hn Hi Hl Hli Hc Hnx Hp Hcf.
+  - (* WritePid *) rewrite Hn. destruct (names s NPid); cbn; auto. split; auto.
+    solveR Hinj Hn Hi Hl Hli Hc Hnx Hp Hcf.
   - (* Serve *) exact I.
   - (* CloseSock *) destruct (sockfd pr); cbn; auto. split; auto. solveR Hinj Hn Hi Hl Hli Hc Hnx Hp Hcf.
   - (* CloseLock *) destruct (lockfd pr); cbn; auto. split; auto. solveR Hinj Hn Hi Hl Hli Hc Hnx Hp Hcf.
+  - (* OpenSeed *) rewrite Hn. destruct (names s NSeed); cbn; (split; [|reflexivity]); rewrite ?Hnx;
+      solveR Hinj Hn Hi Hl Hli Hc Hnx Hp Hcf.
   - (* WriteSeed *) rewrite Hn. destruct (names s NSeed); cbn; auto. split; auto.
     solveR Hinj Hn Hi Hl Hli Hc Hnx Hp Hcf.
   - (* Exit *) assumption.
@@ -216,7 +222,7 @@ Proof.
 Qed.
 
 (* ---- 3. the theorems of StartProofs at byte-string names ---- *)
-Definition cpast_setlk (s : cstate) (p : nat) : Prop := st (cprocs s p) = Running /\ 3 <= pc (cprocs s p).
+Definition cpast_setlk (s : cstate) (p : nat) : Prop := st (cprocs s p) = Running /\ 4 <= pc (cprocs s p).
 Definition cquiet (s : cstate) : Prop := forall p, st (cprocs s p) <> Running.
 
 Lemma R_serving : forall c cs s p, R c cs s -> cserving c cs p = serving s p.
@@ -298,12 +304,13 @@ Theorem path_clean_stop : forall c cs p,
     st (cprocs cs' p) = Exited /\
     cnames cs' (c_sock c) = None /\ cnames cs' (bind_name c) = None /\
     cnames cs' (lock_name_of (c_sock c)) = None /\ cnames cs' (c_pid c) = None /\
-    (exists f, cnames cs' (c_seed c) = Some f /\ cnext cs <= f /\ cinodes cs' f = seed_inode) /\
+    (exists f, cnames cs' (c_seed c) = Some f /\ cnext cs <= f /\ cinodes cs' f = seed_inode /\
+               ccontent cs' f = Some p) /\
     (forall i, clockown cs' i <> Some p) /\ (forall j, clistener cs' j <> Some p).
 Proof.
   intros c cs p Hwf Hacc Hcf Hr Hpc. apply conf_wf_inj in Hwf.
   pose proof (R_abs c cs Hcf) as R0.
-  destruct (clean_stop_postcondition (abs c cs) p) as (s' & Hrun & Hex & A1 & A2 & A3 & (f & A4 & A5 & A6) & A7 & A8);
+  destruct (clean_stop_postcondition (abs c cs) p) as (s' & Hrun & Hex & A1 & A2 & A3 & (f & A4 & A5 & A6 & A6') & A7 & A8);
     [exact Hr|exact Hpc|].
   destruct (run_sim_back c _ cs (abs c cs) s' Hwf Hacc R0 Hrun) as (cs' & Hrun' & R1).
   exists cs'. split; [assumption|].
@@ -312,7 +319,7 @@ Proof.
   change (c_pid c) with (interp c NPid). change (c_seed c) with (interp c NSeed).
   rewrite !(r_names _ _ _ R1), (r_procs _ _ _ R1).
   repeat split; auto.
-  - exists f. rewrite (r_inodes _ _ _ R1). auto.
+  - exists f. rewrite (r_inodes _ _ _ R1), (r_content _ _ _ R1). auto.
   - intros i. rewrite (r_lockown _ _ _ R1). apply A7.
   - intros j. rewrite (r_listener _ _ _ R1). apply A8.
 Qed.
@@ -335,7 +342,7 @@ Proof. intros s p pr a s' [H|H]; destruct a; cbn in H; break_exec H; now inv H. 
 Record NoBind (cf : nat -> conf) (s : cstate) : Prop := {
   nb_conf : forall p, cconf s p = cf p;
   nb_proc : forall p, refuses (cf p) = true ->
-            sockfd (cprocs s p) = None /\ pc (cprocs s p) <= 4 /\ forall j, clistener s j <> Some p }.
+            sockfd (cprocs s p) = None /\ pc (cprocs s p) <= 5 /\ forall j, clistener s j <> Some p }.
 
 Lemma NoBind_die : forall cf s p how, NoBind cf s -> NoBind cf (cdie s p how).
 Proof.
@@ -355,9 +362,9 @@ Proof.
       constructor; cbn; [intros p; now rewrite Hc1|].
       intros p Hr. destruct (Hp p Hr) as (A & B & C). rewrite Hp1. unfold upd.
       destruct (Nat.eqb_spec p q) as [->|Hne]; cbn.
-      * (* the refused process itself: it is at one of the first five positions, and position 4 fails *)
+      * (* the refused process itself: it is at one of the first six positions, and position 5 fails *)
         rewrite Hc in Ha. unfold cprog, cstartup in Ha. rewrite Hr in Ha.
-        destruct (pc (cprocs s q)) as [|[|[|[|[|k]]]]] eqn:Hk; try (exfalso; lia); cbn in Ha; inv Ha;
+        destruct (pc (cprocs s q)) as [|[|[|[|[|[|k]]]]]] eqn:Hk; try (exfalso; lia); cbn in Ha; inv Ha;
           try (cbn in E; discriminate).
         all: repeat split; try lia.
         all: try (destruct Hs1 as [Hs1|[Hs1|(nm & Hs1)]]; [congruence|assumption|discriminate]).
@@ -371,7 +378,7 @@ Proof.
     destruct a; inv H. destruct NB as [Hc Hp]. constructor; cbn; auto.
     intros p Hr. destruct (Hp p Hr) as (A & B & C). unfold upd. destruct (Nat.eqb_spec p q) as [->|Hne]; cbn; auto.
     exfalso. rewrite Hc in Ha. unfold cprog, cstartup in Ha.
-    destruct (pc (cprocs s q)) as [|[|[|[|[|k]]]]]; try lia; cbn in Ha; discriminate.
+    destruct (pc (cprocs s q)) as [|[|[|[|[|[|k]]]]]]; try lia; cbn in Ha; discriminate.
 Qed.
 
 Theorem refused_never_binds : forall cf sched cs p, refuses (cf p) = true -> crun (cinit cf) sched = Some cs ->
@@ -382,7 +389,7 @@ Proof.
   { assert (G : forall sched s, NoBind cf s -> crun s sched = Some cs -> NoBind cf cs).
     { induction sched0 as [|l r IH]; cbn [crun]; intros s NB H; [now inv H|].
       destruct (cstep s l) as [s1|] eqn:E; [|discriminate]. eapply IH; [|eassumption]. eapply NoBind_step; eauto. }
-    apply (G sched (cinit cf)); auto. constructor; cbn; auto. intros q _. repeat split; auto. discriminate. }
+    apply (G sched (cinit cf)); auto. constructor; cbn; auto. intros q _. split; [reflexivity|]. split; [lia|]. intros j. discriminate. }
   destruct (nb_proc _ _ NB p Hr) as (A & B & C). repeat split; auto.
   unfold cat_serve. destruct (st (cprocs cs p)); auto. apply Nat.eqb_neq. cbn. lia.
 Qed.
@@ -393,7 +400,7 @@ Definition site_names (c : conf) : list bytes := [lock_name_of (c_sock c); c_soc
 
 Definition touches (a : cprim) : option bytes :=
   match a with
-  | COpenLock nm | CUnlink nm | CBind false nm | CWritePid nm | CWriteSeed nm => Some nm
+  | COpenLock nm | CUnlink nm | CBind false nm | COpenPid nm | CWritePid nm | COpenSeed nm | CWriteSeed nm => Some nm
   | _ => None
   end.
 
@@ -410,9 +417,9 @@ Qed.
 Lemma cprog_touches : forall c k a nm, nth_error (cprog c) k = Some a -> touches a = Some nm -> In nm (site_names c).
 Proof.
   intros c k a nm Ha Ht. unfold cprog, cstartup, cshutdown in Ha.
-  do 17 (destruct k as [|k]; [cbn [nth_error app] in Ha; inv Ha; cbn [touches] in Ht; try discriminate;
+  do 20 (destruct k as [|k]; [cbn [nth_error app] in Ha; inv Ha; cbn [touches] in Ht; try discriminate;
     try (inv Ht; unfold site_names; cbn [In]; tauto);
-    (* position 4: the bind *)
+    (* position 5: the bind *)
     try (destruct (refuses c) eqn:E; [discriminate|]; inv Ht; rewrite (bind_name_whole c E);
          unfold site_names; cbn [In]; tauto)|]).
   cbn [nth_error app] in Ha. destruct k; discriminate.
